@@ -31,9 +31,57 @@ pub struct Case {
 
 pub struct C03;
 
+/// Object schemas whose patternProperties / additionalProperties leave little or no room for a further key:
+/// every name a pattern can match is declared, `additionalProperties` is false or a schema, optional and required
+/// members are mixed.  The object is satisfiable (its declared members are), so no reachable state may be a trap.
+fn covered_pattern_object() -> BoxedStrategy<serde_json::Value> {
+    let leaf = prop_oneof![Just(json!({"type":"null"})), Just(json!({"type":"boolean"})), Just(json!({"type":"integer","minimum":0,"maximum":9})), Just(json!({"enum":["x","y"]}))];
+    (
+        proptest::sample::subsequence(vec!["a", "b", "key"], 1..=3),
+        0usize..6,
+        leaf.clone(),
+        leaf,
+        prop_oneof![3 => Just(Some(json!(false))), 1 => Just(None), 1 => Just(Some(json!({"type":"null"})))],
+        proptest::collection::vec(any::<bool>(), 3),
+        prop_oneof![2 => Just(Some(false)), 2 => Just(None), 1 => Just(Some(true))],
+    )
+        .prop_map(|(names, pat, vs, ps, addl, reqs, ws)| {
+            let pat = ["^a$", "^(a|b)$", "^key$", "^[ab]$", "^(a|b|key)$", "^a"][pat];
+            let mut props = serde_json::Map::new();
+            let mut req = vec![];
+            for (i, n) in names.iter().enumerate() {
+                props.insert(n.to_string(), vs.clone());
+                if reqs[i] {
+                    req.push(json!(n));
+                }
+            }
+            let mut m = serde_json::Map::new();
+            if let Some(w) = ws {
+                m.insert("x-guidance".into(), json!({"whitespace_flexible": w}));
+            }
+            m.insert("type".into(), json!("object"));
+            m.insert("properties".into(), serde_json::Value::Object(props));
+            if !req.is_empty() {
+                m.insert("required".into(), json!(req));
+            }
+            m.insert("patternProperties".into(), json!({ pat: ps }));
+            if let Some(a) = addl {
+                m.insert("additionalProperties".into(), a);
+            }
+            serde_json::Value::Object(m)
+        })
+        .boxed()
+}
+
 fn numeric_heavy_schema() -> BoxedStrategy<serde_json::Value> {
     prop_oneof![
-        (0i64..2000, 1i64..3000, prop_oneof![Just(json!(7)), Just(json!(13)), Just(json!(0.5)), Just(json!(2.5)), Just(json!(100))]).prop_map(|(lo, span, m)| json!({"type":"number","minimum":lo,"maximum":lo+span,"multipleOf":m})),
+        (-2000i64..2000, 1i64..3000, prop_oneof![Just(json!(7)), Just(json!(13)), Just(json!(0.5)), Just(json!(2.5)), Just(json!(100))]).prop_map(|(lo, span, m)| json!({"type":"number","minimum":lo,"maximum":lo+span,"multipleOf":m})),
+        // narrow windows on both sides of zero that hold one multiple or none (the empty ones have to be rejected when the
+        // schema is compiled, here as the value of an optional property so that a wrongly compiled one is reached by the walk)
+        (-60i64..60, 0i64..9, prop_oneof![Just(json!(3)), Just(json!(7)), Just(json!(10)), Just(json!(2.5)), Just(json!(0.5))], any::<bool>(), any::<bool>()).prop_map(|(lo, span, m, int, opt)| {
+            let v = json!({"type": if int { "integer" } else { "number" },"minimum":lo,"maximum":lo+span,"multipleOf":m});
+            if opt { json!({"type":"object","properties":{"a":v,"b":{"type":"null"}},"required":["b"],"additionalProperties":false}) } else { v }
+        }),
         (-500i64..500, 0i64..40).prop_map(|(lo, span)| json!({"type":"integer","exclusiveMinimum":lo,"exclusiveMaximum":lo+span+2})),
         (0u64..4, 0u64..5).prop_map(|(lo, span)| json!({"type":"string","minLength":lo,"maxLength":lo+span,"pattern":"^[a-c0-9]*$"})),
         (0..crate::formats::FORMATS.len()).prop_map(|i| json!({"type":"object","properties":{"f":{"type":"string","format":crate::formats::FORMATS[i]}},"required":["f"],"additionalProperties":false})),
@@ -173,6 +221,7 @@ impl Prop for C03 {
             2 => cfg_case().prop_map(G::Cfg),
             2 => schema_strategy(Profile::All).prop_map(G::Json),
             2 => numeric_heavy_schema().prop_map(G::Json),
+            1 => covered_pattern_object().prop_map(G::Json),
         ];
         g.prop_flat_map(|g| {
             let gs = spec_of(&g);
